@@ -130,7 +130,9 @@ def prove(prop):
 
 GEN_GROUPS = {   # group -> (groups it builds on, proof files, theorems whose `Print Assumptions` must report "Closed under the global context")
     "match": ([], ["GenP_match.v"], ["gen_divisors_eq", "gen_win_multi_eq", "gen_tcp_signatures_match_eq"]),
-    "uptime": ([], ["GenP_uptime.v"], ["gen_round_frequency_eq", "gen_should_fingerprint_eq", "gen_valid_for_uptime_fingerprint_eq"]),
+    "uptime": ([], ["GenP_uptime.v", "GenUptC.v"], ["gen_round_frequency_eq", "gen_should_fingerprint_eq", "gen_valid_for_uptime_fingerprint_eq", "gen_uptime_post_init_eq",
+                                                    "gen_fingerprint_uptime_eq", "gen_fingerprint_uptime_eq_sane", "C13_translated_gate", "C13_translated_fields",
+                                                    "C13_translated_fields_obj", "C13_translated_packet_gate", "C13_translated_packet_gate_any_options"]),
     "select": (["match"], ["GenP_select.v"], ["gen_guess_distance_eq", "gen_should_fingerprint_eq", "gen_valid_for_tcp_fingerprint_eq", "gen_find_tcp_match_eq", "gen_distance_eq"]),
     "mtu": ([], ["GenP_mtu.v"], ["gen_should_fingerprint_eq", "gen_valid_for_mtu_fingerprint_eq", "gen_mtu_from_mss_eq", "gen_mtu_from_mss_reject", "gen_mtu_signatures_match_eq",
                                  "gen_find_mtu_match_eq", "gen_impersonate_mtu_eq", "C08_translated_roundtrip", "C08_translated_untouched"]),
@@ -138,7 +140,7 @@ GEN_GROUPS = {   # group -> (groups it builds on, proof files, theorems whose `P
     "http": ([], ["GenP_http.v", "GenHdrP.v"], ["gen_find_http_match_eq", "gen_software_eq", "gen_dishonest_eq", "gen_headers_match_eq", "gen_http_signatures_match_eq", "gen_rec_matches_eq"]),
 }
 GEN_MODEL_FILES = ["Model/Prelude.v", "Model/Bits.v", "Model/Sig.v", "Model/Matcher.v", "Model/Select.v", "Model/Uptime.v", "Model/Mtu.v", "Model/Options.v", "Model/Text.v",
-                   "Model/SigParse.v", "Model/DbParse.v", "Model/HttpRead.v", "Model/HttpMatch.v", "Proofs/BitsP.v", "Proofs/OptionsP.v", "Proofs/MtuP.v", "Gen/GenLib.v"]
+                   "Model/SigParse.v", "Model/DbParse.v", "Model/HttpRead.v", "Model/HttpMatch.v", "Proofs/BitsP.v", "Proofs/OptionsP.v", "Proofs/MtuP.v", "Proofs/UptimeP.v", "Gen/GenLib.v"]
 
 
 def gen_tie(groups=None):
